@@ -494,6 +494,20 @@ fn c09(seed: u64) -> i32 {
     let rs = run_seed(seed, "C09-miri", 0);
     let mut case = pf::gen_case(rs, Tier::Quick);
     case.seq = shrink_seq(&case.seq, 400, 30);
+    // few levels under the interpreter (trees of 32..64 levels are the main batch's business: natively a query
+    // costs microseconds, interpreted such a scenario took more than 20 minutes)
+    if let Seq::Explicit(v) = &case.seq {
+        case.seq = Seq::Explicit(v.iter().map(|s| Sym(s.0 % 251)).collect());
+    }
+    // plain quad trees only: an interpreted Huffman-shaped scenario of this size took 57 minutes (measured), the
+    // plain ones take seconds; the Huffman-shaped trees are covered natively by the main batch
+    case.alias = match case.alias {
+        crate::ds::Alias::HQWT256 => crate::ds::Alias::QWT256,
+        crate::ds::Alias::HQWT512 => crate::ds::Alias::QWT512,
+        crate::ds::Alias::HQWT256Pfs => crate::ds::Alias::QWT256Pfs,
+        crate::ds::Alias::HQWT512Pfs => crate::ds::Alias::QWT512Pfs,
+        a => a,
+    };
     if case.prob == 0 {
         case.prob = 65536;
     }
